@@ -1,0 +1,217 @@
+//! Verification hooks, only compiled with the cargo feature `verif_hooks`.
+//!
+//! A thin public wrapper around the crate-private [`CircuitBuilder`], so that sequences of gate
+//! requests can be driven directly (without going through the language) by external verification
+//! tooling. Nothing in here changes the behaviour of the crate; the module only forwards calls.
+
+use std::collections::HashMap;
+
+use crate::{
+    circuit::{
+        BuilderGate, CachedPanicResult, Circuit, CircuitBuilder, CircuitBuilderOptions, GateIndex,
+        PanicReason,
+    },
+    token::MetaInfo,
+};
+
+/// Public wrapper around the crate-private circuit builder.
+#[derive(Debug, Clone)]
+pub struct Builder(CircuitBuilder);
+
+/// Opaque snapshot of the builder's panic record (incl. its condition cache).
+#[derive(Debug, Clone)]
+pub struct PanicSnapshot(CachedPanicResult);
+
+impl Builder {
+    /// Creates a builder for the given parties, with gate de-duplication on or off.
+    pub fn new(input_gates: Vec<usize>, cache_gates: bool) -> Self {
+        Builder(CircuitBuilder::new(
+            input_gates,
+            HashMap::new(),
+            CircuitBuilderOptions { cache_gates },
+        ))
+    }
+
+    /// The intermediate gates pushed so far, as `(is_and, x, y)` triples, and the index of the
+    /// first of them.
+    pub fn dump(&self) -> (usize, Vec<(bool, GateIndex, GateIndex)>) {
+        let (shift, gates) = self.0.verif_dump();
+        (
+            shift,
+            gates
+                .iter()
+                .map(|g| match g {
+                    BuilderGate::Xor(x, y) => (false, *x, *y),
+                    BuilderGate::And(x, y) => (true, *x, *y),
+                })
+                .collect(),
+        )
+    }
+
+    /// The 161 wires of the current panic record.
+    pub fn panic_wires(&self) -> Vec<GateIndex> {
+        let p = self.0.peek_panic().verif_result();
+        let mut w = vec![p.has_panicked];
+        w.extend(p.panic_type.iter());
+        w.extend(p.start_line.iter());
+        w.extend(p.start_column.iter());
+        w.extend(p.end_line.iter());
+        w.extend(p.end_column.iter());
+        w
+    }
+
+    /// Forwards to `push_xor`.
+    pub fn push_xor(&mut self, x: GateIndex, y: GateIndex) -> GateIndex {
+        self.0.push_xor(x, y)
+    }
+    /// Forwards to `push_and`.
+    pub fn push_and(&mut self, x: GateIndex, y: GateIndex) -> GateIndex {
+        self.0.push_and(x, y)
+    }
+    /// Forwards to `push_not`.
+    pub fn push_not(&mut self, x: GateIndex) -> GateIndex {
+        self.0.push_not(x)
+    }
+    /// Forwards to `push_or`.
+    pub fn push_or(&mut self, x: GateIndex, y: GateIndex) -> GateIndex {
+        self.0.push_or(x, y)
+    }
+    /// Forwards to `push_eq`.
+    pub fn push_eq(&mut self, x: GateIndex, y: GateIndex) -> GateIndex {
+        self.0.push_eq(x, y)
+    }
+    /// Forwards to `push_mux`.
+    pub fn push_mux(&mut self, s: GateIndex, x0: GateIndex, x1: GateIndex) -> GateIndex {
+        self.0.push_mux(s, x0, x1)
+    }
+    /// Forwards to `push_adder`.
+    pub fn push_adder(
+        &mut self,
+        x: GateIndex,
+        y: GateIndex,
+        carry: GateIndex,
+    ) -> (GateIndex, GateIndex) {
+        self.0.push_adder(x, y, carry)
+    }
+    /// Forwards to `push_eq_circuit`.
+    pub fn push_eq_circuit(&mut self, x: &[GateIndex], y: &[GateIndex]) -> GateIndex {
+        self.0.push_eq_circuit(x, y)
+    }
+    /// Forwards to `push_addition_circuit`.
+    pub fn push_addition_circuit(
+        &mut self,
+        x: &[GateIndex],
+        y: &[GateIndex],
+    ) -> (Vec<GateIndex>, GateIndex, GateIndex) {
+        self.0.push_addition_circuit(x, y)
+    }
+    /// Forwards to `push_negation_circuit`.
+    pub fn push_negation_circuit(&mut self, x: &[GateIndex]) -> Vec<GateIndex> {
+        self.0.push_negation_circuit(x)
+    }
+    /// Forwards to `push_subtraction_circuit`.
+    pub fn push_subtraction_circuit(
+        &mut self,
+        x: &[GateIndex],
+        y: &[GateIndex],
+        is_signed: bool,
+    ) -> (Vec<GateIndex>, GateIndex) {
+        self.0.push_subtraction_circuit(x, y, is_signed)
+    }
+    /// Forwards to `push_unsigned_division_circuit`.
+    pub fn push_unsigned_division_circuit(
+        &mut self,
+        x: &[GateIndex],
+        y: &[GateIndex],
+    ) -> (Vec<GateIndex>, Vec<GateIndex>) {
+        self.0.push_unsigned_division_circuit(x, y)
+    }
+    /// Forwards to `push_signed_division_circuit`.
+    pub fn push_signed_division_circuit(
+        &mut self,
+        x: &mut [GateIndex],
+        y: &mut [GateIndex],
+    ) -> (Vec<GateIndex>, Vec<GateIndex>) {
+        self.0.push_signed_division_circuit(x, y)
+    }
+    /// Forwards to `push_gt_circuit`.
+    pub fn push_gt_circuit(&mut self, bits: usize, x: &[GateIndex], y: &[GateIndex]) -> GateIndex {
+        self.0.push_gt_circuit(bits, x, y)
+    }
+    /// Forwards to `push_comparator_circuit`.
+    pub fn push_comparator_circuit(
+        &mut self,
+        bits: usize,
+        x: &[GateIndex],
+        is_x_signed: bool,
+        y: &[GateIndex],
+        is_y_signed: bool,
+    ) -> (GateIndex, GateIndex) {
+        self.0
+            .push_comparator_circuit(bits, x, is_x_signed, y, is_y_signed)
+    }
+    /// Forwards to `push_condswap`.
+    pub fn push_condswap(
+        &mut self,
+        s: GateIndex,
+        x: GateIndex,
+        y: GateIndex,
+    ) -> (GateIndex, GateIndex) {
+        self.0.push_condswap(s, x, y)
+    }
+    /// Forwards to `push_sorter`.
+    pub fn push_sorter(
+        &mut self,
+        bits: usize,
+        x: &[GateIndex],
+        y: &[GateIndex],
+    ) -> (Vec<GateIndex>, Vec<GateIndex>) {
+        self.0.push_sorter(bits, x, y)
+    }
+    /// Forwards to `push_bitonic_merger`.
+    pub fn push_bitonic_merger(
+        &mut self,
+        bits: usize,
+        ascending: bool,
+        bitonic: &mut [Vec<GateIndex>],
+    ) {
+        self.0.push_bitonic_merger(bits, ascending, bitonic)
+    }
+    /// Forwards to `push_bitonic_sorter`.
+    pub fn push_bitonic_sorter(&mut self, bits: usize, input: &mut [Vec<GateIndex>]) {
+        self.0.push_bitonic_sorter(bits, input)
+    }
+
+    /// Forwards to `push_panic_if`; `reason` is 1 (overflow), 2 (division by zero) or anything
+    /// else (out of bounds).
+    pub fn push_panic_if(&mut self, cond: GateIndex, reason: usize, meta: MetaInfo) {
+        let reason = match reason {
+            1 => PanicReason::Overflow,
+            2 => PanicReason::DivByZero,
+            _ => PanicReason::OutOfBounds,
+        };
+        self.0.push_panic_if(cond, reason, meta)
+    }
+    /// Clones the current panic record (`peek_panic().clone()`).
+    pub fn snapshot_panic(&self) -> PanicSnapshot {
+        PanicSnapshot(self.0.peek_panic().clone())
+    }
+    /// Forwards to `replace_panic_with`.
+    pub fn replace_panic_with(&mut self, p: PanicSnapshot) -> PanicSnapshot {
+        PanicSnapshot(self.0.replace_panic_with(p.0))
+    }
+    /// Forwards to `mux_panic`.
+    pub fn mux_panic(
+        &mut self,
+        condition: GateIndex,
+        t: &PanicSnapshot,
+        f: &PanicSnapshot,
+    ) -> PanicSnapshot {
+        PanicSnapshot(self.0.mux_panic(condition, &t.0, &f.0))
+    }
+
+    /// Forwards to `build`.
+    pub fn build(self, output_gates: Vec<GateIndex>) -> Circuit {
+        self.0.build(output_gates)
+    }
+}
